@@ -25,7 +25,7 @@ from pynenc.types import Params, Result
 from pynenc.util.sqlite_utils import TableNames
 from pynenc.util.sqlite_utils import create_sqlite_connection as sqlite_conn
 from pynenc.util.sqlite_utils import (
-    delete_tables_with_prefix,
+    delete_tables,
     get_sqlite_sqlite_db_path,
 )
 from pynenc.workflow.workflow_identity import WorkflowIdentity
@@ -723,5 +723,5 @@ class SQLiteStateBackend(BaseStateBackend[Params, Result]):
 
     def purge(self) -> None:
         """Clear all state backend data"""
-        delete_tables_with_prefix(self.sqlite_db_path, self.tables.table_prefix)
+        delete_tables(self.sqlite_db_path, self.tables.all_tables())
         init_tables(self.sqlite_db_path, self.tables)
